@@ -757,6 +757,7 @@ func (rd *round) runPhase(pi int, rng *vf.RNG) ([]finding, error) {
 			}
 			atomic.AddUint64(&samples, 1)
 			runtime.Gosched()
+			time.Sleep(20 * time.Microsecond) // harness-side pacing only; no verdict depends on it
 		}
 	}()
 	order := rng.Perm(len(plan))
@@ -850,7 +851,18 @@ func (rd *round) runPhase(pi int, rng *vf.RNG) ([]finding, error) {
 	}
 	var fs []finding
 	add := func(key, what string) {
-		fs = append(fs, finding{key: key + ":" + shape, what: what, spec: rd.spec, o: o, size: nAtt*1000 + len(rd.spec.Remotes)*10 + pi})
+		// witness = the round cut after the violating phase; prefer (for the reported witness) the design's
+		// default limits, a barrier phase (deterministic interleaving), few concurrent attempts, few remotes
+		cut := *rd.spec
+		cut.Phases = append([]phaseSpec{}, rd.spec.Phases[:pi+1]...)
+		size := nAtt*1000 + len(rd.spec.Remotes)*10 + pi
+		if !(rd.spec.MaxIn == 3 && rd.spec.PerIP == 2 && rd.spec.MaxOut == 2) {
+			size += 1_000_000
+		}
+		if !ph.Barrier {
+			size += 100_000
+		}
+		fs = append(fs, finding{key: key + ":" + shape, what: what, spec: &cut, o: o, size: size})
 	}
 	if o.In > rd.spec.MaxIn {
 		add("limit:inbound", fmt.Sprintf("InboundsCount()=%d > MaxConnInBound=%d at a quiescent point after %d concurrent AcceptConnect calls (%d succeeded)", o.In, rd.spec.MaxIn, o.Accepts, o.AccOK))
